@@ -12,6 +12,11 @@
 //! * `blind be= nglwe= nlwe= block= ext= b= klwe= kbrk= rows= klut= kres= p= msg= left=0|1 dist= flen= seed=`: real
 //!   key generation + `blind_rotation_execute`, decrypts; prints
 //!   `ok lwe=<l0>|<l1>… sk=<bits> f=<ints> klutset=<k> pt=<limb0>|<limb1>…` (decrypted plaintext limbs).
+//! * `blindct` (same keys as `blind`, plus `resb=` the radix of `res`): the same run dumped at CIPHERTEXT level for the executed
+//!   model `Core.Blind.execute`: `ok lweb= lwe=<l0>|<l1>… dist=<block|binary|other> block= gp=<base2k>,<rank>,<dsize>,<dnum>,<size>
+//!   g=<key0>;<key1>;… lut=<poly0>;<poly1>;… skl=<ints> skg=<ints> res=<C>x<S>:<ints> pt=<limbs>` — the blind rotation key is read
+//!   back from its serialisation (`WriterTo`), one GGSW per LWE coefficient, integers in (row, input column, output column, limb,
+//!   coefficient) order; `res` is the raw content of the output accumulator.
 use std::io::{BufRead, Write};
 use std::sync::Mutex;
 
@@ -48,7 +53,7 @@ fn panic_class() -> &'static str {
         "overflow"
     } else if m.contains("out of bounds") || m.contains("out of range") || m.contains("range end index") || m.contains("range start index") {
         "bounds"
-    } else if m.contains("assertion") || m.contains("extension_factor must be") || m.contains(">= self.size()") {
+    } else if m.contains("assertion") || m.contains("extension_factor must be") || m.contains("requires a BinaryBlock key distribution") || m.contains(">= self.size()") {
         "assert"
     } else {
         "other"
@@ -174,6 +179,14 @@ macro_rules! backend_impl {
             }
 
             pub fn blind(t: &[&str]) -> String {
+                blind_impl(t, false)
+            }
+
+            pub fn blindct(t: &[&str]) -> String {
+                blind_impl(t, true)
+            }
+
+            fn blind_impl(t: &[&str], ct: bool) -> String {
                 match std::panic::catch_unwind(std::panic::AssertUnwindSafe(|| {
                     let n_glwe = kvn(t, "nglwe", 64) as usize;
                     let n_lwe = kvn(t, "nlwe", 8) as usize;
@@ -206,9 +219,10 @@ macro_rules! backend_impl {
                         rank: (rank as u32).into(),
                     })
                     .unwrap();
+                    let res_b = kvn(t, "resb", base2k as i64) as usize;
                     let glwe_infos = EncryptionLayout::new_from_default_sigma(GLWELayout {
                         n: (n_glwe as u32).into(),
-                        base2k: (base2k as u32).into(),
+                        base2k: (res_b as u32).into(),
                         k: (k_res as u32).into(),
                         rank: (rank as u32).into(),
                     })
@@ -263,6 +277,63 @@ macro_rules! backend_impl {
                     module.glwe_decrypt(&res, &mut pt, &sk_glwe_dft, scratch.borrow());
                     let lwe_limbs: Vec<String> = (0..lwe.size()).map(|j| ints(lwe.data().at(0, j))).collect();
                     let pt_limbs: Vec<String> = (0..pt.data().size()).map(|j| ints(pt.data().at(0, j))).collect();
+                    if ct {
+                        use poulpy_core::layouts::{GGSW, GGSWInfos, GLWEInfos};
+                        use poulpy_hal::layouts::{ReaderFrom, WriterTo};
+                        let mut bytes: Vec<u8> = Vec::new();
+                        brk.write_to(&mut bytes).unwrap();
+                        let (dist_s, blk) = match poulpy_core::Distribution::read_from(&mut &bytes[0..8]).unwrap() {
+                            poulpy_core::Distribution::BinaryBlock(v) => ("block", v),
+                            poulpy_core::Distribution::BinaryFixed(_)
+                            | poulpy_core::Distribution::BinaryProb(_)
+                            | poulpy_core::Distribution::ZERO => ("binary", 1),
+                            _ => ("other", 1),
+                        };
+                        let len = u64::from_le_bytes(bytes[8..16].try_into().unwrap()) as usize;
+                        let mut cur = std::io::Cursor::new(&bytes[16..]);
+                        let mut keys: Vec<String> = Vec::new();
+                        let mut gp = String::new();
+                        for _ in 0..len {
+                            let mut g: GGSW<Vec<u8>> = GGSW::alloc_from_infos(&brk_infos);
+                            g.read_from(&mut cur).unwrap();
+                            gp = format!(
+                                "{},{},{},{},{}",
+                                g.base2k().as_usize(),
+                                g.rank().as_usize(),
+                                g.dsize().as_usize(),
+                                g.dnum().as_usize(),
+                                g.size()
+                            );
+                            keys.push(crate::cmd_ep::fmt_ggsw_flat(&g, g.dnum().as_usize(), g.rank().as_usize() + 1));
+                        }
+                        let (polys, _) = lookup_table_parts(&lut);
+                        let lut_s: Vec<String> = polys
+                            .iter()
+                            .map(|p| (0..p.size()).map(|j| ints(p.at(0, j))).collect::<Vec<_>>().join("|"))
+                            .collect();
+                        // the GLWE secret, replayed from its seed (`GLWESecret::fill_ternary_prob` fills column by column)
+                        let mut skg: Vec<i64> = Vec::new();
+                        let mut xs2 = Source::new([seed; 32]);
+                        let mut sk_copy = poulpy_hal::layouts::ScalarZnx::alloc(n_glwe, rank);
+                        for i in 0..rank {
+                            sk_copy.fill_ternary_prob(i, 0.5, &mut xs2);
+                            skg.extend_from_slice(sk_copy.at(i, 0));
+                        }
+                        return format!(
+                            "ok lweb={} lwe={} dist={} block={} gp={} g={} lut={} skl={} skg={} res={} pt={}",
+                            lwe_b,
+                            lwe_limbs.join("|"),
+                            dist_s,
+                            blk,
+                            gp,
+                            keys.join(";"),
+                            lut_s.join(";"),
+                            ints(sk_lwe.raw()),
+                            ints(&skg),
+                            crate::cmd_ep::fmt_glwe(&res),
+                            pt_limbs.join("|")
+                        );
+                    }
                     format!(
                         "ok lwe={} sk={} f={} kset={} pt={}",
                         lwe_limbs.join("|"),
@@ -316,6 +387,7 @@ pub fn run(_args: &[String]) {
             "set" | "rot" => dispatch!(set),
             "rotall" => dispatch!(rotall),
             "blind" => dispatch!(blind),
+            "blindct" => dispatch!(blindct),
             "modswitch" => modswitch(&t),
             _ => "bad-op".to_string(),
         };
